@@ -697,3 +697,42 @@ fn test_g1_same_y() {
 fn g1_curve_tests() {
     ::tests::curve::curve_tests::<G1>();
 }
+
+#[cfg(feature = "verif")]
+impl G1Affine {
+    /// verification hook: private curve-equation test
+    pub fn verif_is_on_curve(&self) -> bool {
+        self.is_on_curve()
+    }
+    /// verification hook: private y-recovery
+    pub fn verif_get_point_from_x(x: Fq, greatest: bool) -> Option<G1Affine> {
+        Self::get_point_from_x(x, greatest)
+    }
+    /// verification hook: private cofactor scaling
+    pub fn verif_scale_by_cofactor(&self) -> G1 {
+        self.scale_by_cofactor()
+    }
+    /// verification hook: private [r]P == O test
+    pub fn verif_is_in_correct_subgroup_assuming_on_curve(&self) -> bool {
+        self.is_in_correct_subgroup_assuming_on_curve()
+    }
+    /// verification hook: build a point from raw coordinates without any check
+    pub fn verif_from_raw(x: Fq, y: Fq, infinity: bool) -> Self {
+        G1Affine { x, y, infinity }
+    }
+    /// verification hook: raw coordinates
+    pub fn verif_raw(&self) -> (Fq, Fq, bool) {
+        (self.x, self.y, self.infinity)
+    }
+}
+#[cfg(feature = "verif")]
+impl G1 {
+    /// verification hook: build a projective point from raw Jacobian coordinates
+    pub fn verif_from_raw(x: Fq, y: Fq, z: Fq) -> Self {
+        G1 { x, y, z }
+    }
+    /// verification hook: raw Jacobian coordinates
+    pub fn verif_raw(&self) -> (Fq, Fq, Fq) {
+        (self.x, self.y, self.z)
+    }
+}
